@@ -500,6 +500,14 @@ def s_r6_constraints(schema: Schema, rep: Report):
             rep.check("S-R6", f"{ci.name}.validate_args:chains", ok, f"{ci.name} has mutex groups but its override does not always reach the base check: {why}" if not ok else "", l)
         elif not ok:
             rep.note(f"S-R6 note: {ci.name}.validate_args does not chain to super ({why}); the class has no mutex group, nothing is lost")
+    # counting by itertools.groupby needs its input sorted by the group key: unsorted, only ADJACENT repeats are seen
+    from .rules_request import groupby_inputs_sorted
+
+    ng = 0
+    for ci, fn in validate_overrides(schema):
+        if any(isinstance(c, ast.Call) and (dotted(c.func) or "").split(".")[-1] == "groupby" for c in ast.walk(fn)):
+            ng += groupby_inputs_sorted(schema.p, ci.module, fn, rep, "S-R6", f"{ci.name}.validate_args")
+    rep.unit("groupby_in_validate_args", ng)
     rep.floor("S-R6", n, 14, "validate_args overrides")
 
 
